@@ -6,5 +6,5 @@ export GOFLAGS=-mod=mod GOPROXY=off GOSUMDB=off GOTOOLCHAIN=local
 cd /repo && git apply "$P" || { echo "patch does not apply"; exit 3; }
 ( cd /repo && go build ./... && go test -vet=off -count=1 ./... 2>&1 | tail -1 )
 RACE=""; [ "$PROP" = "C19" ] && RACE="-race"
-cd /verif/sim && go build $RACE -o /verif/.build/simkv-mut . && cd /verif && VERIF_WATCHDOG_S=${WD:-300} VERIF_DIR=/verif ./.build/simkv-mut check -prop "$PROP" -tier "$TIER" -no-evidence 2>&1 | grep -v "^  kind" | sort | uniq -c | sort -rn | head -${LINES_MAX:-8}
+cd /verif/sim && go build -tags verif $RACE -o /verif/.build/simkv-mut . && cd /verif && VERIF_WATCHDOG_S=${WD:-300} VERIF_DIR=/verif ./.build/simkv-mut check -prop "$PROP" -tier "$TIER" -no-evidence 2>&1 | grep -v "^  kind" | sort | uniq -c | sort -rn | head -${LINES_MAX:-8}
 git -C /repo checkout -- .
